@@ -21,6 +21,9 @@ CLAIMED = {
  "C05": ("proptest: generated rule trees x generated sources, evaluated on every node by the implementation and by O-eval, an independent reference evaluator over raw tree-sitter nodes (differential against a reference model)",
          "Randomised exploration: ~10^4 (quick) to 3x10^5 (thorough) generated rule trees over all operators, stopBy kinds, field, An+B/reverse/ofRule, utilities and multi-key objects, each compared with the reference on every node of a small source; disagreements are localised to the smallest disagreeing sub-rule.",
          "Trusted: pattern leaves (delegated to Pattern, decided by C02/C03), regex crate, tree-sitter navigation primitives parent/child(i)/next_sibling/child_by_field_name.", "DESIGN.md §5 C05"),
+ "C07": ("proptest: templates (identity, wrapping, random token mixes) over real captures at generated site indentations vs. O-template, an independent reference of the template language and the indentation arithmetic (reference model + identity round-trip)",
+         "Randomised exploration: 2x10^4 (quick) to 5x10^5 (thorough) (template, capture, site) cases in all languages; replacement must equal the reference byte for byte when captures are well indented, verbatim modulo leading spaces otherwise; rewriting a node to its own pattern must be a no-op.",
+         "Trusted: bindings come from the construction of the pattern (C02 decides that the implementation binds the same spans); spaces-only indentation, lines within the 512-byte look-behind.", "DESIGN.md §5 C07"),
  "C10": ("proptest: generated edit histories vs. fresh-parse reference + independent raw tree-sitter incremental chain (differential), shrinking to replay files",
          "Randomised exploration: thousands of generated edit histories per run over all 23 languages; after every step the document text must equal the O-splice model and, when the text parses error-free, the tree must equal a fresh parse (a divergence that an independent, correctly driven tree-sitter incremental chain reproduces exactly is the listed tree-sitter known finding). No absence claim.",
          "Trusted: tree-sitter's fresh parse as reference; the harness's own InputEdit chain; the property is only asserted at error-free steps.", "DESIGN.md §5 C10"),
